@@ -1,4 +1,4 @@
 From Coq Require Import List ZArith NArith Extraction ExtrOcamlBasic.
-From DDP Require Import Lang.Syntax Lang.F64 Lang.RefSem.
+From DDP Require Import Lang.Syntax Lang.F64 Lang.RefSem Lang.Prec Lower.Ops Lower.Tie.
 Extraction Language OCaml.
-Extraction "c01_model.ml" exec_program.
+Extraction "c01_model.ml" exec_program lower_top render parse.
